@@ -86,6 +86,8 @@ def build_harness(race=False):
         if race:
             cmd.insert(2, "-race")
             env = dict(GOENV, CGO_ENABLED="1")
+        if os.environ.get("VERIF_COVER"):       # tools/coverage.sh: statement coverage of the library under the checks
+            cmd[2:2] = ["-cover", "-coverpkg=github.com/cedar-policy/cedar-go/...,verifharness/..."]
         cmd.append("./cmd/cedarconf")
         p = run(cmd, cwd=HARNESS, env=env, timeout=900, check=False)
         if p.returncode != 0:
